@@ -225,5 +225,58 @@ class TokenPart(Part):
         return res
 
 
+class InstancesPart(Part):
+    name = "instance_histories"
+    desc = "every sequence of <=3 anonymizer constructions (lists x salts), then every instance queried"
+
+    def __init__(self, tier, seed):
+        self.tier, self.seed = tier, seed
+
+    def cases(self):
+        menu = [(["65001", "12"], "saltA"), (["65001", "12"], "saltB"), (["65001"], "saltA"),
+                (["12", "4200000000"], "seed%d" % self.seed)]
+        out = []
+        for k in (1, 2, 3):
+            for seq in itertools.product(range(len(menu)), repeat=k):
+                out.append(list(seq))
+        return [{"seqs": out[i:i + 12], "menu": menu} for i in range(0, len(out), 12)]
+
+    def run(self, case):
+        res = Res()
+        menu = case["menu"]
+        fresh = {}
+        for seq in case["seqs"]:
+            try:
+                objs = [make(menu[i][0], menu[i][1]) for i in seq]
+                res.evals += 1
+                res.states += 1
+                res.transitions += len(seq)
+                res.nt(tuple(seq))
+                for i, an in zip(seq, objs):
+                    lst, salt = menu[i]
+                    for n in lst:
+                        if (salt, n) not in fresh:
+                            fresh[(salt, n)] = make([n], salt).anonymize(n)
+                        got = an.anonymize(n)
+                        line = anonymize_line(an, "router bgp %s x" % n)
+                        res.out((salt, n, got))
+                        if got != fresh[(salt, n)] or line != "router bgp %s x" % fresh[(salt, n)]:
+                            res.violation("replacement-depends-on-other-instances",
+                                          "constructions %r: instance (%r, %r) maps AS %s to %s / %r, a fresh "
+                                          "singleton instance to %s" % ([menu[j] for j in seq], lst, salt, n, got,
+                                                                        line, fresh[(salt, n)]),
+                                          {"seqs": [seq], "menu": menu})
+            finally:
+                seams.restore_globals()
+        res.samples.append({"sequences": case["seqs"][:3]})
+        return res
+
+
+def anonymize_line(an, line):
+    from netconan.sensitive_item_removal import anonymize_as_numbers
+
+    return anonymize_as_numbers(an, line)
+
+
 def parts(tier, seed):
-    return [RangePart(tier, seed), RealMd5Part(tier, seed), TokenPart(tier, seed)]
+    return [RangePart(tier, seed), RealMd5Part(tier, seed), TokenPart(tier, seed), InstancesPart(tier, seed)]
